@@ -296,13 +296,22 @@ struct Obj
   int read() const { return alive(this) ? payload : -1; }
 };
 
+// re-entrant removal (`P.removechain`, `Q.removechain`): the destructor of the object at `chainOwner` removes another
+// element of the same pool (a parent object taking its child along) before it dies itself
+static const void* chainOwner;
+static void (*chainFn)();
+static inline void chainCheck(const void* self)
+{
+  if(self == chainOwner && chainOwner) { chainOwner = 0; chainFn(); }
+}
+
 struct Tracked : Obj
 {
   Tracked() { init(0); }
   explicit Tracked(int p) { init(p); }
   Tracked(const Tracked& o) { copyFrom(o); }
   Tracked& operator=(const Tracked& o) { assignFrom(o); return *this; }
-  ~Tracked() { die(); }
+  ~Tracked() { chainCheck(this); die(); }
   bool operator==(const Tracked& o) const { return read() == o.read(); }
   bool operator!=(const Tracked& o) const { return read() != o.read(); }
   bool operator<(const Tracked& o) const { return read() < o.read(); }
@@ -317,7 +326,8 @@ struct Fixed : Obj
 {
   Fixed() { init(0); }
   explicit Fixed(int p) { init(p); }
-  ~Fixed() { die(); }
+  Fixed(int p, int q) { init(p + q); }          // PoolList::append(A, B): in-place construction from two arguments
+  ~Fixed() { chainCheck(this); die(); }
   Fixed(const Fixed&) = delete;
   Fixed& operator=(const Fixed&) = delete;
 };
@@ -343,6 +353,9 @@ template<> struct AssignIf<false> { template<class C> static bool run(C&, const 
 
 static const size_t NONE = (size_t)-1;
 static bool varLive[NKIND][2];
+static TP* chainP; static TQ* chainQ; static const Fixed* chainTarget;
+static void chainRemoveP() { chainP->remove(*chainTarget); }
+static void chainRemoveQ() { chainQ->remove(*chainTarget); }
 
 template<class C> static C& V(int k, int v) { return *(C*)varStorage[k][v]; }
 
@@ -802,6 +815,15 @@ int main(int argc, char** argv)
       else if(IS("append0", 1)) c.append();
       else if(IS("remove", 2)) { NEED(a2 < c.size()); c.remove(at(c, a2)); }
       else if(IS("removeref", 2)) { NEED(a2 < c.size()); c.remove(*at(c, a2)); }
+      else if(IS("append2", 3)) c.append((int)a2, (int)a3);
+      else if(IS("removechain", 3))
+      { // remove(element a2), whose destructor removes element a3 of the same pool
+        NEED(a2 < c.size() && a3 < c.size() && a2 != a3);
+        TP::Iterator it = at(c, a2);
+        chainP = &c; chainTarget = &*at(c, a3); chainFn = chainRemoveP; chainOwner = &*it;
+        c.remove(it);
+        chainOwner = 0;
+      }
       else { bad(); continue; }
     }
     // ---- PoolMap -------------------------------------------------------------------------------
@@ -818,6 +840,24 @@ int main(int argc, char** argv)
       else if(IS("remove", 2)) { Tracked tk((int)a2); c.remove(tk); }
       else if(IS("removeat", 2)) { NEED(a2 < c.size()); c.remove(at(c, a2)); }
       else if(IS("removeref", 2)) { NEED(a2 < c.size()); c.remove(*at(c, a2)); }
+      else if(IS("prepend", 3) || IS("insert", 4))
+      { // PoolMap::insert(position, key)
+        bool pre = op[0] == 'p';
+        usize pos = pre ? 0 : (usize)a2;
+        NEED(pos <= c.size());
+        Tracked tk((int)(pre ? a2 : a3));
+        usize before = c.size();
+        TQ::Iterator it = c.insert(at(c, pos), tk);
+        if(c.size() != before) { Fixed& f = *it; f.payload = (int)(pre ? a3 : a4); *f.cell = f.payload; }
+      }
+      else if(IS("removechain", 3))
+      { // remove(item a2); the destructor of its key object removes item a3 of the same pool
+        NEED(a2 < c.size() && a3 < c.size() && a2 != a3);
+        TQ::Iterator it = at(c, a2);
+        chainQ = &c; chainTarget = &*at(c, a3); chainFn = chainRemoveQ; chainOwner = &it.key();
+        c.remove(it);
+        chainOwner = 0;
+      }
       else { bad(); continue; }
     }
     curKind = -1;
